@@ -97,8 +97,8 @@ impl Popen {
         // no busy wait: between two status checks there is always a sleep
         final(w).s.n_waitpid - old(w).s.n_waitpid <= (final(w).s.n_sleep - old(w).s.n_sleep) + 1, //[C11]
 //@replace 1 /use std::cmp::min;/ => //
-//@replace 1 /::std::thread::sleep(/ => /thread_sleep(/
-//@replace 1 /let mut delay = / => /proof { begin_wait(w, deadline.t as nat); } let mut delay = /
+//@rreplace + /::std::thread::sleep\(/ => /thread_sleep(/
+//@rreplace 1 /(let deadline = Instant::now\(Tracked\(&\*w\)\) \+ dur;)/ => /\1 proof { begin_wait(w, deadline.t as nat); }/
 //@loop 0
         invariant popen_wf(*self, w.s), frame(*old(self), *self), !is_finished(*old(self)), clock_ok(w.s),
             w.s.kills == old(w).s.kills, w.s.n_blocking == old(w).s.n_blocking,
